@@ -825,6 +825,51 @@ CONTRACTS += [
 ]
 
 
+def merged_runs(rs):
+    """what CHText.make shows: equal-coloured neighbouring runs merged, in order; empty runs are NOT dropped
+    (`make` is the constructor for internal use, it keeps an empty chunk it is given)"""
+    out = []
+    for r in rs:
+        if out and out[-1][0] == r[0]:
+            out[-1] = (r[0], out[-1][1] + r[1])
+        else:
+            out.append(r)
+    return out
+
+
+def neighbours_differ(chunks):
+    return all(a.c_prefix != b.c_prefix for a, b in zip(chunks[:-1], chunks[1:]))
+
+
+_MAXM = 8 if _os.environ.get('VERIF_TIER') == 'thorough' else 6       # make: chunk lists of length 0..7 (thorough) / 0..5
+CHUNK_LISTS = T.one_of(*[T.list(*[CHUNK() for _ in range(n)]) for n in range(_MAXM)])
+
+CONTRACTS += [
+    Contract(M, 'CHText._merge_chunks', prop=PROP, spec_globals=G, level='top',
+             params={'cls': T.cls('ak.color:CHText'), 'chunks_list': CHUNK_LISTS},
+             requires=["all_wfc(chunks_list)"],
+             ensures={
+                 'view': "runs(result) == merged_runs(runs(chunks_list))",
+                 'text': "plain(result) == plain(chunks_list)",
+                 'neighbours_differ': "neighbours_differ(result)",
+                 'no_empty_chunk_added': "implies(all(len(c.text) > 0 for c in chunks_list), all(len(c.text) > 0 for c in result))",
+                 'suffixes': "all_wfc(result)",
+             },
+             modifies=[], raises={}, max_paths=20000),
+    Contract(M, 'CHText.make', prop=PROP, spec_globals=G, level='top',
+             params={'cls': T.cls('ak.color:CHText'), 'chunks_list': CHUNK_LISTS},
+             requires=["all_wfc(chunks_list)"],
+             ensures={
+                 'view': "runs(result.chunks) == merged_runs(runs(chunks_list))",
+                 'text': "plain(result.chunks) == plain(chunks_list)",
+                 'len': "result.scrlen == total(chunks_list)",
+                 'wf': "implies(all(len(c.text) > 0 for c in chunks_list), wf(result))",
+                 'is_text': "isinstance(result, CHText_cls)",
+             },
+             modifies=[], raises={}, max_paths=20000),
+]
+
+
 def total_runs(rs):
     n = 0
     for r in rs:
@@ -837,7 +882,7 @@ CHText_cls = akc.CHText
 BOUNDED_SYMBOLIC = {'CHText.__format__/any_length': f"widths from {{none, {', '.join(map(str, _FORMAT_WIDTHS))}}}; any fill character, every alignment, text with any number of chunks",
                     'CHText.join/any_length': "at most 3 (thorough: 4) joined items (str / chunk / text); every text has any number of chunks",
                     'CHText.__init__/any_length': "at most 3 (thorough: 4) constructor arguments (str / chunk / text); every text has any number of chunks",
-                    'CHText.join': 3, 'CHText.__init__': 2, 'CHText._append_chunk': 3, 'CHText.__iadd__': 2, 'CHText.__add__': 2, 'CHText.__radd__': 2,
+                    'CHText.join': 3, 'CHText._merge_chunks': _MAXM - 1, 'CHText.make': _MAXM - 1, 'CHText.__init__': 2, 'CHText._append_chunk': 3, 'CHText.__iadd__': 2, 'CHText.__add__': 2, 'CHText.__radd__': 2,
                     'CHText.__eq__/text': 2, 'CHText.__eq__/str': 3, 'CHText.fixed_len': 2, 'CHText._get_chunk_pos': 3, 'CHText.__getitem__/index': 3, 'CHText.__getitem__/slice': 3}
 _IADD_ANY = ['CHText.__iadd__/chunk/any_length', 'CHText.__iadd__/str/any_length', 'CHText.__iadd__/text/any_length']
 _IADD_ALL = _IADD_ANY + ['CHText.__iadd__/list/any_length']
@@ -897,6 +942,15 @@ for _c in CONTRACTS:
 
 NATIVE_SAMPLING = {'select': 'any_length', 'n': 150}
 CANARIES = [
+    {'name': 'merge_loses_last_run', 'module': M, 'function': 'CHText._merge_chunks',
+     'old': '        result.append(cur_chunk)\n        return result', 'new': '        return result',
+     'expect': 'C08.CHText._merge_chunks.view'},
+    {'name': 'merge_keeps_text_of_first_only', 'module': M, 'function': 'CHText._merge_chunks',
+     'old': 'cur_chunk = cur_chunk.add_chunks_same_type(chunk)', 'new': 'cur_chunk = cur_chunk.clone(cur_chunk.text)',
+     'expect': 'C08.CHText._merge_chunks.text'},
+    {'name': 'make_counts_chunks_not_characters', 'module': M, 'function': 'CHText.make',
+     'old': 'result.scrlen = sum(len(c.text) for c in chunks_list)', 'new': 'result.scrlen = len(chunks_list)',
+     'expect': 'C08.CHText.make.len'},
     {'name': 'anylen_eq_ignores_colour', 'module': M, 'function': 'CHText.__eq__', 'verify': 'CHText.__eq__/text/any_length',
      'old': 'return all(p0 == p1 for p0, p1 in zip(self.chunks, other.chunks))',
      'new': 'return all(p0.text == p1.text for p0, p1 in zip(self.chunks, other.chunks))',
